@@ -351,7 +351,7 @@ impl StubTerm {
         if !shared.current.is_empty() {
             let chunk = std::mem::take(&mut shared.current);
             if let Some(log) = shared.log.as_mut() {
-                log.push(format!("  chunk closed: {:?}", chunk));
+                log.push(strip_ansi(format!("  chunk closed: {:?}", chunk)));
             }
             shared.pending.push_back(chunk);
         }
@@ -604,8 +604,26 @@ fn direct_expectation(snapshot: &Snapshot, size: TerminalSize) -> Vec<Option<Dis
     out
 }
 
+/// Debug output of colours contains SGR sequences (they render as colour swatches): strip them
+fn strip_ansi(text: String) -> String {
+    let mut out = String::with_capacity(text.len());
+    let mut chars = text.chars();
+    while let Some(c) = chars.next() {
+        if c == '\x1b' {
+            for d in chars.by_ref() {
+                if d == 'm' {
+                    break;
+                }
+            }
+        } else {
+            out.push(c);
+        }
+    }
+    out
+}
+
 fn describe(disp: &Disp) -> String {
-    format!("{:?}", disp)
+    strip_ansi(format!("{:?}", disp))
 }
 
 /// Compare what the screen shows with the drawn surface (direct) and with a from-scratch
@@ -828,7 +846,7 @@ fn run(ctx: &Ctx, src: &mut Src) -> WorldResult {
                 src.sig(0xF0 ^ sig);
                 src.log(|| format!("frame: {}", render_ascii(&snap)));
                 renderer.frame(&mut term).map_err(|e| Violation::new(P, "C01.error", "frame", format!("{e:?}")))?;
-                src.log(|| format!("  commands: {:?}", shared.borrow().current));
+                src.log(|| strip_ansi(format!("  commands: {:?}", shared.borrow().current)));
                 term.deliver_all();
                 frames += 1;
                 check_screen(&shared.borrow().screen, &snap, size, &context, &used.features())?;
